@@ -98,7 +98,9 @@ impl<K: CacheKey, V: CacheValue> DefaultCacheState<K, V> {
         let value_size = value.size();
 
         if value_size == 0 {
-            return None;
+            // A zero-sized value is not cached, but it still replaces whatever was
+            // cached under this key: remove the potential stale entry
+            return self.remove(key);
         }
 
         let key_size = key.size();
